@@ -4,7 +4,9 @@
 #   worktree /tmp/mut/<name>/repo, engine copy /tmp/mut/<name>/engine, verif root /tmp/mut/<name>/verif
 # Prints one line per check: "<name> <ID> rc=<rc> <first signature>". Cleans up afterwards.
 NAME=$1; PATCH=$2; shift 2
-M=/tmp/mut/cur
+SLOT=${MUT_SLOT:-cur}
+M=/tmp/mut/$SLOT
+TGT=/tmp/mut/target${MUT_SLOT:+-$MUT_SLOT}
 git -C /repo worktree remove --force $M/repo 2>/dev/null
 rm -rf $M; mkdir -p $M/verif/work
 git -C /repo worktree remove --force $M/repo 2>/dev/null
@@ -12,13 +14,13 @@ git -C /repo worktree add --detach $M/repo HEAD >/dev/null 2>&1 || { echo "$NAME
 if ! git -C $M/repo apply "$PATCH" 2>/dev/null; then echo "$NAME PATCH-DOES-NOT-APPLY"; git -C /repo worktree remove --force $M/repo; rm -rf $M; exit 3; fi
 cp -a /verif/engine $M/engine
 sed -i "s#/repo/crates#$M/repo/crates#g" $M/engine/Cargo.toml
-sed -i "s#/verif/work/target#/tmp/mut/target#" $M/engine/.cargo/config.toml
+sed -i "s#/verif/work/target#$TGT#" $M/engine/.cargo/config.toml
 cp /verif/known_findings.json $M/verif/; cp -a /verif/replays $M/verif/replays; rm -f $M/verif/replays/*/new-*.json
 (cd $M/engine && cargo build --release --offline >$M/build.log 2>&1) || { echo "$NAME ENGINE-BUILD-FAILED"; tail -5 $M/build.log; }
 NEED_IWE=0; for id in "$@"; do [ "$id" = "C19" ] && NEED_IWE=1; done
-if [ $NEED_IWE = 1 ]; then (cd $M/repo && CARGO_TARGET_DIR=/tmp/mut/target-iwe cargo build --release --offline -p iwe >$M/build-iwe.log 2>&1); export VERIF_IWE_BIN=/tmp/mut/target-iwe/release/iwe; fi
+if [ $NEED_IWE = 1 ]; then (cd $M/repo && CARGO_TARGET_DIR=$TGT-iwe cargo build --release --offline -p iwe >$M/build-iwe.log 2>&1); export VERIF_IWE_BIN=$TGT-iwe/release/iwe; fi
 for id in "$@"; do
-  out=$(VERIF_ROOT_DIR=$M/verif VERIF_QUIET_PANICS=1 /tmp/mut/target/release/vcheck run $id --tier quick 2>&1); rc=$?
+  out=$(VERIF_ROOT_DIR=$M/verif VERIF_QUIET_PANICS=1 $TGT/release/vcheck run $id --tier quick 2>&1); rc=$?
   sig=$(echo "$out" | grep -m1 "signature:" | sed 's/^ *signature: //' | cut -c1-120)
   echo "$NAME $id rc=$rc $sig"
 done
